@@ -81,7 +81,18 @@ def certificate_cases(rng, n):
         Psi = Xu.T; Thp = Xs.T
         p, q = Psi.shape
         dist[f'{shape}/alpha={alpha}'] = dist.get(f'{shape}/alpha={alpha}', 0) + 1
-        reg = pykoop.Edmd(alpha=alpha).fit(X, n_inputs=nu, episode_feature=True)
+        # the same data presented in several ways: float matrix with an episode column, integer-typed matrix, and
+        # (single episode) integer-typed matrix without episode column - the fit depends on the values only
+        form = ['float/ep', 'int64/ep', 'int64/noep', 'float/noep'][cid % 4]
+        single = len(set(X[:, 0].tolist())) == 1
+        if form.endswith('/noep') and not single:
+            form = form.split('/')[0] + '/ep'
+        Xin = X.astype(np.int64) if form.startswith('int64') else X
+        if form.endswith('/noep'):
+            reg = pykoop.Edmd(alpha=alpha).fit(Xin[:, 1:], n_inputs=nu, episode_feature=False)
+        else:
+            reg = pykoop.Edmd(alpha=alpha).fit(Xin, n_inputs=nu, episode_feature=True)
+        dist[f'data as {form}'] = dist.get(f'data as {form}', 0) + 1
         U = reg.coef_.T
         # numeric certificate + optimality against the closed-form competitor and random competitors
         H = Psi @ Psi.T + alpha * np.eye(p)
@@ -97,7 +108,7 @@ def certificate_cases(rng, n):
         better = [V for V in comp if cost(V, Psi, Thp, alpha) < c_u - 1e-9 * max(1.0, abs(c_u))]
         if res > 1e-8 * scale * max(1.0, float(np.max(np.abs(U)))) or better:
             bad.append(dict(what='Edmd coef_ violates the normal equations / is not the regularised least-squares optimum',
-                            alpha=alpha, n_states=ns, n_inputs=nu, shape=shape, X=X.tolist(),
+                            alpha=alpha, n_states=ns, n_inputs=nu, shape=shape, X=X.tolist(), data_given_as=form,
                             normal_equation_residual=res, cost=c_u,
                             better_cost=(cost(better[0], Psi, Thp, alpha) if better else None)))
         tol = Fraction(1e-8 * scale * max(1.0, float(np.max(np.abs(U)))))
